@@ -11,8 +11,16 @@
 //! * role `cli`: task `d` = build, then the driver `poll_close`; `r0..r(N-1)` = request tasks:
 //!   pattern `pa`: send_request -> [send_data] -> finish -> recv_response -> recv_data* -> recv_trailers
 //!   pattern `pb`: send_request -> recv_response -> recv_data* -> recv_trailers -> finish
+//! * role `wts`: WebTransport server: build -> accept -> resolve_request (extended CONNECT) -> WebTransportSession::accept
+//!   -> accept_uni (or accept_bi with `ab`) -> read the stream to its end through futures AsyncRead (`r<k>`, k-byte buffer)
+//!   or tokio AsyncRead (`o<k>`).
 //! * opts: comma-free word list joined by `+`: `pa`|`pb`, `n<k>` number of client requests (default 1), `g` grease on,
-//!   `m<limit>` max_field_section_size, `w` enable webtransport/extended connect/datagram settings, `b` client sends a body.
+//!   `m<limit>` max_field_section_size, `w` enable webtransport/extended connect/datagram settings, `b` client sends a body,
+//!   `q<k>` write budget of every stream (back-pressure; grants by `W<id>:<k>` events), `u<k>` / `h<k>` initial credit for
+//!   opening uni / bidi streams (grants by `G<n>` / `H<n>`), `t` send_trailers, `x` stop_sending after the first recv_data
+//!   result, `y` stop_stream instead of finish, `k<n>` server calls shutdown(n) after the first accepted request and keeps
+//!   accepting, `s` split() the request stream, `d` client drops its SendRequest handle after the last request,
+//!   `e` (exploration only, NOT the documented pattern) recv_data once and then recv_trailers.
 //! * events: the SimQuic mini-language (`U<id>`, `B<id>`, `<id>:c:<hex>`, `<id>:F`, `<id>:R<code>`, `<id>:S<code>`,
 //!   `X<code>`, `T`, `I`) plus `~` = run the executor to quiescence now, and `<id>:z:<byte>x<count>` = a chunk of
 //!   `count` copies of one byte (for large inputs).  The executor also runs at the end of the script.
@@ -21,9 +29,10 @@
 //!   `ok calls=<t>;<t>.. pend=<p>;<p>.. stuck=<t>;.. world=c:<0|1>,<id>:<-|F|R>,.. | close calls=.. pend=..`
 //!   call token `<task>.<api>@<target>=<result>[*<repeat>]`, result = ok | none | some | interim | err:<scope>:<code>:<variant>;
 //!   pend token `<task>.<api>@<target>`: the call is still pending at quiescence.  target = `c` (waits on the
-//!   connection), `n` (waits on nothing the peer controls: must never be pending) or the stream id whose receive side
-//!   it waits on.  `stuck` = calls that completed only when the harness polled their (un-woken) task once more at
-//!   quiescence: a lost wake-up (must be `-`).  `world` is the terminal state of every stream the script mentions, as SimQuic recorded it.
+//!   connection), `n` (waits on nothing the peer controls: must never be pending), the stream id whose receive side
+//!   it waits on, `w<id>` (a send call: waits on the peer's flow-control credit for stream id; ended by STOP_SENDING) or
+//!   `wc` (waits on credit to open streams / to write h3's own unidirectional streams).  `stuck` = calls that completed only when the harness polled their (un-woken) task once more at
+//!   quiescence: a lost wake-up (must be `-`).  `world` is the terminal state of every stream the script mentions, as SimQuic recorded it (`s` appended: the peer sent STOP_SENDING for our send half).
 //!   The part after `| close` is what happened after the harness finally closed the connection (`X256`): every call
 //!   must have completed by then.
 //!   `panic <location> <message> @ev<k> | <calls so far>` when any h3 call panicked; `livelock` when the executor did
